@@ -96,17 +96,79 @@ Qed.
 Definition pDecF b f := g_AF_Lo (decP8 (s_BC_Hi (s_AF_Lo cpu0 f) b) lens_BC_Hi).
 Lemma decP8_pure b f : is8 b -> is8 f -> (u8 (b - 1), pDecF b f) = dec8 b f.
 Proof. intros Hb Hf. both; cbv delta [pDecF cpu0]; unf; unfF; enum2 b f. Qed.
-Lemma decP8_BC_Hi cpu : decP8 cpu lens_BC_Hi = s_AF_Lo (s_BC_Hi cpu (u8 (g_BC_Hi cpu - 1))) (pDecF (g_BC_Hi cpu) (g_AF_Lo cpu)).
-Proof. cbv delta [pDecF cpu0]; unf; reflexivity. Qed.
-Lemma decP8_BC_Lo cpu : decP8 cpu lens_BC_Lo = s_AF_Lo (s_BC_Lo cpu (u8 (g_BC_Lo cpu - 1))) (pDecF (g_BC_Lo cpu) (g_AF_Lo cpu)).
-Proof. cbv delta [pDecF cpu0]; unf; reflexivity. Qed.
-Lemma decP8_DE_Hi cpu : decP8 cpu lens_DE_Hi = s_AF_Lo (s_DE_Hi cpu (u8 (g_DE_Hi cpu - 1))) (pDecF (g_DE_Hi cpu) (g_AF_Lo cpu)).
-Proof. cbv delta [pDecF cpu0]; unf; reflexivity. Qed.
-Lemma decP8_DE_Lo cpu : decP8 cpu lens_DE_Lo = s_AF_Lo (s_DE_Lo cpu (u8 (g_DE_Lo cpu - 1))) (pDecF (g_DE_Lo cpu) (g_AF_Lo cpu)).
-Proof. cbv delta [pDecF cpu0]; unf; reflexivity. Qed.
-Lemma decP8_HL_Hi cpu : decP8 cpu lens_HL_Hi = s_AF_Lo (s_HL_Hi cpu (u8 (g_HL_Hi cpu - 1))) (pDecF (g_HL_Hi cpu) (g_AF_Lo cpu)).
-Proof. cbv delta [pDecF cpu0]; unf; reflexivity. Qed.
-Lemma decP8_HL_Lo cpu : decP8 cpu lens_HL_Lo = s_AF_Lo (s_HL_Lo cpu (u8 (g_HL_Lo cpu - 1))) (pDecF (g_HL_Lo cpu) (g_AF_Lo cpu)).
-Proof. cbv delta [pDecF cpu0]; unf; reflexivity. Qed.
-Lemma decP8_AF_Hi cpu : decP8 cpu lens_AF_Hi = s_AF_Lo (s_AF_Hi cpu (u8 (g_AF_Hi cpu - 1))) (pDecF (g_AF_Hi cpu) (g_AF_Lo cpu)).
-Proof. cbv delta [pDecF cpu0]; unf; reflexivity. Qed.
+Lemma decP8_BC_Hi cpu : is8 (g_BC_Hi cpu) -> is8 (g_AF_Lo cpu) ->
+  decP8 cpu lens_BC_Hi = s_AF_Lo (s_BC_Hi cpu (fst (dec8 (g_BC_Hi cpu) (g_AF_Lo cpu)))) (snd (dec8 (g_BC_Hi cpu) (g_AF_Lo cpu))).
+Proof. intros Hb Hf. rewrite <- (decP8_pure _ _ Hb Hf). cbv delta [pDecF cpu0]; unf; reflexivity. Qed.
+Lemma decP8_BC_Lo cpu : is8 (g_BC_Lo cpu) -> is8 (g_AF_Lo cpu) ->
+  decP8 cpu lens_BC_Lo = s_AF_Lo (s_BC_Lo cpu (fst (dec8 (g_BC_Lo cpu) (g_AF_Lo cpu)))) (snd (dec8 (g_BC_Lo cpu) (g_AF_Lo cpu))).
+Proof. intros Hb Hf. rewrite <- (decP8_pure _ _ Hb Hf). cbv delta [pDecF cpu0]; unf; reflexivity. Qed.
+Lemma decP8_DE_Hi cpu : is8 (g_DE_Hi cpu) -> is8 (g_AF_Lo cpu) ->
+  decP8 cpu lens_DE_Hi = s_AF_Lo (s_DE_Hi cpu (fst (dec8 (g_DE_Hi cpu) (g_AF_Lo cpu)))) (snd (dec8 (g_DE_Hi cpu) (g_AF_Lo cpu))).
+Proof. intros Hb Hf. rewrite <- (decP8_pure _ _ Hb Hf). cbv delta [pDecF cpu0]; unf; reflexivity. Qed.
+Lemma decP8_DE_Lo cpu : is8 (g_DE_Lo cpu) -> is8 (g_AF_Lo cpu) ->
+  decP8 cpu lens_DE_Lo = s_AF_Lo (s_DE_Lo cpu (fst (dec8 (g_DE_Lo cpu) (g_AF_Lo cpu)))) (snd (dec8 (g_DE_Lo cpu) (g_AF_Lo cpu))).
+Proof. intros Hb Hf. rewrite <- (decP8_pure _ _ Hb Hf). cbv delta [pDecF cpu0]; unf; reflexivity. Qed.
+Lemma decP8_HL_Hi cpu : is8 (g_HL_Hi cpu) -> is8 (g_AF_Lo cpu) ->
+  decP8 cpu lens_HL_Hi = s_AF_Lo (s_HL_Hi cpu (fst (dec8 (g_HL_Hi cpu) (g_AF_Lo cpu)))) (snd (dec8 (g_HL_Hi cpu) (g_AF_Lo cpu))).
+Proof. intros Hb Hf. rewrite <- (decP8_pure _ _ Hb Hf). cbv delta [pDecF cpu0]; unf; reflexivity. Qed.
+Lemma decP8_HL_Lo cpu : is8 (g_HL_Lo cpu) -> is8 (g_AF_Lo cpu) ->
+  decP8 cpu lens_HL_Lo = s_AF_Lo (s_HL_Lo cpu (fst (dec8 (g_HL_Lo cpu) (g_AF_Lo cpu)))) (snd (dec8 (g_HL_Lo cpu) (g_AF_Lo cpu))).
+Proof. intros Hb Hf. rewrite <- (decP8_pure _ _ Hb Hf). cbv delta [pDecF cpu0]; unf; reflexivity. Qed.
+Lemma decP8_AF_Hi cpu : is8 (g_AF_Hi cpu) -> is8 (g_AF_Lo cpu) ->
+  decP8 cpu lens_AF_Hi = s_AF_Lo (s_AF_Hi cpu (fst (dec8 (g_AF_Hi cpu) (g_AF_Lo cpu)))) (snd (dec8 (g_AF_Hi cpu) (g_AF_Lo cpu))).
+Proof. intros Hb Hf. rewrite <- (decP8_pure _ _ Hb Hf). cbv delta [pDecF cpu0]; unf; reflexivity. Qed.
+
+(* ---- AND/OR/XOR flags called directly by the register forms ---- *)
+Definition pLogic r (b : bool) f := g_AF_Lo (updateFlagLogic8 (s_AF_Lo cpu0 f) r b).
+Lemma updateFlagLogic8_shape cpu r b : updateFlagLogic8 cpu r b = s_AF_Lo cpu (pLogic r b (g_AF_Lo cpu)).
+Proof. cbv delta [pLogic cpu0]; unf; reflexivity. Qed.
+Lemma updateFlagLogic8_pure r b f : is8 r -> is8 f ->
+  pLogic r b f = if b then sz53 r + FH + parity r else sz53 r + parity r.
+Proof. intros Hr Hf. destruct b; cbv delta [pLogic cpu0]; unf; unfF; enum2 r f. Qed.
+
+(* ---- the repeat tests of LDIR/CPIR read P/V of the flags just computed ---- *)
+Lemma is8_ldx_flags a v bc f : is8 f -> is8 (ldx_flags a v bc f).
+Proof.
+  intros Hf. unfold ldx_flags. generalize (is8_u8 (a + v)). generalize (u8 (a + v)). intros n Hn.
+  cbv beta iota zeta delta [FS FZ FC FPV F3 F5].
+  assert (E : forall z : bool, is8 (Z.land f (128 + 64 + 1) + b2z z 4 + Z.land n 8 + b2z (Z.testbit n 1) 32)).
+  { intros z. enough (all_below 256 (fun n => all_below 256 (fun f =>
+       (0 <=? Z.land f (128 + 64 + 1) + b2z z 4 + Z.land n 8 + b2z (Z.testbit n 1) 32) &&
+       (Z.land f (128 + 64 + 1) + b2z z 4 + Z.land n 8 + b2z (Z.testbit n 1) 32 <? 256))) = true) as H.
+    { pose proof (forall_byte2 _ H n f Hn Hf) as B. unfold is8. lia. }
+    destruct z; vm_compute; reflexivity. }
+  apply E.
+Qed.
+Lemma ldx_pv a v bc f : is8 f -> Z.testbit (ldx_flags a v bc f) 2 = negb (bc =? 0).
+Proof.
+  intros Hf. unfold ldx_flags. generalize (is8_u8 (a + v)). generalize (u8 (a + v)). intros n Hn.
+  cbv beta iota zeta delta [FS FZ FC FPV F3 F5]. destruct (bc =? 0); cbv beta iota delta [negb b2z]; benum2 n f.
+Qed.
+Lemma is8_cpx_flags a v bc f : is8 a -> is8 v -> is8 f -> is8 (cpx_flags a v bc f).
+Proof.
+  intros Ha Hv Hf. pose proof (is1_land1 f) as Hc. unfold cpx_flags.
+  cbv beta iota zeta delta [s_z FS FZ FC FPV F3 F5 FH FN]. revert Hc. generalize (Z.land f 1). intros c Hc.
+  assert (E : forall z : bool, is8 (Z.land ((a - v) mod 256) 128 + b2z ((a - v) mod 256 =? 0) 64 + b2z (a mod 16 <? v mod 16) 16 + b2z z 4 + 2 + c +
+     Z.land (((a - v) mod 256 - b2z (a mod 16 <? v mod 16) 1) mod 256) 8 + b2z (Z.testbit (((a - v) mod 256 - b2z (a mod 16 <? v mod 16) 1) mod 256) 1) 32)).
+  { intros z.
+    enough (H : forall a v c, is8 a -> is8 v -> is1 c -> ((0 <=? Z.land ((a - v) mod 256) 128 + b2z ((a - v) mod 256 =? 0) 64 + b2z (a mod 16 <? v mod 16) 16 + b2z z 4 + 2 + c +
+     Z.land (((a - v) mod 256 - b2z (a mod 16 <? v mod 16) 1) mod 256) 8 + b2z (Z.testbit (((a - v) mod 256 - b2z (a mod 16 <? v mod 16) 1) mod 256) 1) 32) &&
+     (Z.land ((a - v) mod 256) 128 + b2z ((a - v) mod 256 =? 0) 64 + b2z (a mod 16 <? v mod 16) 16 + b2z z 4 + 2 + c +
+     Z.land (((a - v) mod 256 - b2z (a mod 16 <? v mod 16) 1) mod 256) 8 + b2z (Z.testbit (((a - v) mod 256 - b2z (a mod 16 <? v mod 16) 1) mod 256) 1) 32 <? 256)) = true).
+    { pose proof (H a v c Ha Hv Hc) as B. unfold is8. lia. }
+    apply forall_byte2_bit. destruct z; vm_compute; reflexivity. }
+  apply E.
+Qed.
+Lemma cpx_pv a v bc f : is8 a -> is8 v -> is8 f -> Z.testbit (cpx_flags a v bc f) 2 = negb (bc =? 0).
+Proof.
+  intros Ha Hv Hf. pose proof (is1_land1 f) as Hc. unfold cpx_flags.
+  cbv beta iota zeta delta [s_z FS FZ FC FPV F3 F5 FH FN]. revert Hc. generalize (Z.land f 1). intros c Hc.
+  enough (H : forall z : bool, Z.testbit (Z.land ((a - v) mod 256) 128 + b2z ((a - v) mod 256 =? 0) 64 + b2z (a mod 16 <? v mod 16) 16 + b2z z 4 + 2 + c +
+     Z.land (((a - v) mod 256 - b2z (a mod 16 <? v mod 16) 1) mod 256) 8 + b2z (Z.testbit (((a - v) mod 256 - b2z (a mod 16 <? v mod 16) 1) mod 256) 1) 32) 2 = z).
+  { apply H. }
+  intros z. apply Bool.eqb_prop.
+  exact (forall_byte2_bit (fun a v c => Bool.eqb (Z.testbit (Z.land ((a - v) mod 256) 128 + b2z ((a - v) mod 256 =? 0) 64 + b2z (a mod 16 <? v mod 16) 16 + b2z z 4 + 2 + c +
+     Z.land (((a - v) mod 256 - b2z (a mod 16 <? v mod 16) 1) mod 256) 8 + b2z (Z.testbit (((a - v) mod 256 - b2z (a mod 16 <? v mod 16) 1) mod 256) 1) 32) 2) z)
+     ltac:(destruct z; vm_compute; reflexivity) a v c Ha Hv Hc).
+Qed.
+#[global] Hint Resolve is8_ldx_flags is8_cpx_flags : ranges.
